@@ -118,7 +118,10 @@ def run(scenarios, shards=16):
 def describe(rec):
     sc = rec['scenario']
     top = sc.top
-    mk = str(top)
+    try:
+        mk = str(top)
+    except Exception:
+        mk = 'unserialisable tree; model view: ' + sc.sx
     return {'markup': mk if len(mk) < 1500 else mk[:1500] + '...', 'tree_label': sc.label, 'pattern': rec['pattern'],
             'namespaces': dict(rec['namespaces']) if rec.get('namespaces') else None, 'custom': rec.get('custom'),
             'op': [rec['op'][0], list(rec['op'][1])] + list(rec['op'][2:]), 'implementation': rec['real'],
